@@ -97,6 +97,9 @@ func hC08iter(p, T, mode int) {
 	off := 0
 	for n := 0; n < 8; n++ {
 		want, ok := refDecodeAt(data, off)
+		if ok && n == p {
+			vRecord("tailvalid", 1) // the reference accepts a record formed by the tail
+		}
 		rec, err := it.next()
 		if !ok {
 			vAssert(err == ErrIterationDone, "C08.iter.stops-at-first-invalid")
@@ -114,9 +117,6 @@ func hC08iter(p, T, mode int) {
 		off += want.size
 		if n >= p {
 			vCover("C08.iter.record-from-tail-accepted")
-			if n == p {
-				vRecord("tailvalid", 1)
-			}
 		}
 	}
 	vAssert(vFileSize(fsys, name) == int64(headerSize+off), "C08.iter.truncated-to-valid-prefix")
@@ -168,6 +168,9 @@ func hC08two(p, T int) {
 		if !ok {
 			break
 		}
+		if n == p {
+			vRecord("tailvalid", 1)
+		}
 		rec, err := it.next()
 		vAssert(err == nil, "C08.two.accepts-valid")
 		if err != nil {
@@ -175,9 +178,6 @@ func hC08two(p, T int) {
 		}
 		vAssert(vEqBytes(rec.key, want.key) && rec.segmentID == 0, "C08.two.first-segment-record")
 		off += want.size
-		if n == p {
-			vRecord("tailvalid", 1)
-		}
 	}
 	rec, err := it.next()
 	vAssert(err == nil, "C08.two.continues-with-next-segment")
@@ -279,6 +279,9 @@ func hC08boundary(d, T int) {
 	off := 0
 	for n := 0; n < 4; n++ {
 		want, ok := refDecodeAt(data, off)
+		if ok && n == 1 {
+			vRecord("tailvalid", 1)
+		}
 		rec, err := it.next()
 		if !ok {
 			vAssert(err == ErrIterationDone, "C08.boundary.stops-at-first-invalid")
@@ -293,9 +296,6 @@ func hC08boundary(d, T int) {
 		off += want.size
 		if n >= 1 {
 			vCover("C08.boundary.record-across-buffer-refill-accepted")
-			if n == 1 {
-				vRecord("tailvalid", 1)
-			}
 		}
 	}
 	vAssert(vFileSize(fsys, name) == int64(headerSize+off), "C08.boundary.truncated-to-valid-prefix")
